@@ -156,19 +156,7 @@ def run_sem(pid, fmt):
                             "original": {"cddl": o["cddl"], "doc": o.get("json") or o.get("hex"), "rules": c["rules"], "val": c["val"]},
                             "spec": "CddlSem!Expected"})
 
-    # ---------------- listed findings with a concrete witness: re-run the witness
-    for f in findings:
-        w = f.get("witness")
-        if not w or "cddl" not in w:
-            continue
-        op = {"id": 0, "op": "validate_json" if fmt == "json" else "validate_cbor", "cddl": w["cddl"]}
-        if fmt == "json":
-            op["json"] = w["doc"]
-        else:
-            op["hex"] = w["doc"]
-        r = vlib.execute([op])[0]
-        if observed_verdict(r["obs"]) == w["observed"] and not f.get("dev"):
-            out.known_hit(f["id"])
+    vlib.rerun_witnesses(out, findings, fmt)
 
     total = sum(v for k, v in stats.items() if k.startswith("scope_")) + len(cases)
     either = stats["either"]
